@@ -195,7 +195,7 @@ func genView(rt *rapid.T, maxNodes int) vfView {
 		s := vw.SliceSpec{Name: "svc0-healthy", NS: "ns0", Svc: "svc0"}
 		for i, n := range v.Nodes {
 			if rapid.IntRange(0, 3).Draw(rt, "epHere") != 0 {
-				s.Endpoints = append(s.Endpoints, vw.EndpointSpec{Addrs: []string{fmt.Sprintf("10.244.9.%d", i+1)}, Node: n.Name, Ready: vw.Tri(rapid.SampledFrom([]int{0, 1, 1, 2}).Draw(rt, "hReady")), Serving: vw.Tri(rapid.SampledFrom([]int{0, 1, 2}).Draw(rt, "hServing"))})
+				s.Endpoints = append(s.Endpoints, vw.EndpointSpec{Addrs: []string{fmt.Sprintf("10.244.9.%d", i+1)}, Node: n.Name, Ready: vw.Tri(rapid.SampledFrom([]int{0, 1, 1, 2}).Draw(rt, "hReady")), Serving: vw.Tri(rapid.SampledFrom([]int{0, 1, 2}).Draw(rt, "hServing")), Term: vw.Tri(rapid.SampledFrom([]int{0, 0, 1, 2}).Draw(rt, "hTerm"))})
 			}
 		}
 		v.Slices = append(v.Slices, s)
